@@ -7,7 +7,7 @@ import math
 
 import z3
 
-from .values import only_kw, ONE, ExcVal, Space, SubSpace, SymRaise, Undecided, V, _b, _or, broadcast_axes, fresh_name, ite, num, real, root_space, same_axis, to_term
+from .values import ANY, only_kw, ONE, ExcVal, Space, SubSpace, SymRaise, Undecided, V, _b, _or, broadcast_axes, fresh_name, ite, num, real, root_space, same_axis, to_term
 
 TRUSTED = []
 CUR = None  # the interpreter of the path being executed (set by the harness)  # human-readable list of the assumed contracts actually *used* in a run
@@ -300,6 +300,8 @@ def np_full(shape, fill_value):
 
 def np_asarray(x, *a, **k):
     only_kw("theory_np.np_asarray", k)
+    if a:
+        raise Undecided("np.asarray with a positional dtype")
     if isinstance(x, V):
         return V(x.t, x.axes, None, x.nan, x.inf)
     if hasattr(x, "as_v"):
@@ -487,7 +489,7 @@ class VStack:
         if name == "T":
             return self.T
         if name == "astype":
-            return lambda ty, **k: VStack([v_getattr(interp, c, "astype")(ty) for c in self.comps], self.pos)
+            return lambda ty, **k: (only_kw("astype", k), VStack([v_getattr(interp, c, "astype")(ty) for c in self.comps], self.pos))[1]
         raise Undecided(f"VStack.{name}")
 
     def _bin(self, opname, o, rev):
@@ -569,13 +571,28 @@ def v_getattr(interp, v, name):
 
     if name in ("values", "to_numpy"):
         r = V(v.t, v.axes, None, v.nan, v.inf)
-        return r if name == "values" else (lambda *a, **k: r)
+        if name == "values":
+            return r
+
+        def to_numpy(dtype=None, **k):
+            only_kw("Series.to_numpy", k, copy=ANY)
+            if dtype is not None and getattr(dtype, "__name__", str(dtype)) not in ("float", "py_float", "float64"):
+                raise Undecided(f"to_numpy(dtype={dtype!r})")
+            return r
+
+        return to_numpy
     if name == "T":
         return V(v.t, tuple(reversed(v.axes)), None, v.nan, v.inf)
     if name == "shape":
         return tuple(_axis_len(a) for a in v.axes)
     if name == "copy":
-        return lambda *a, **k: V(v.t, v.axes, v.series, v.nan, v.inf, v.meta)
+        def copy(deep=True, **k):
+            only_kw("copy", k, order=ANY)
+            if deep is not True:
+                raise Undecided("copy(deep=False) aliases the data")
+            return V(v.t, v.axes, v.series, v.nan, v.inf, v.meta)
+
+        return copy
     if name == "flatten":
 
         def flatten():
@@ -628,13 +645,13 @@ def v_getattr(interp, v, name):
 
         return astype
     if name == "sum":
-        return lambda axis=None, **k: sums.reduce_sum(interp, v, axis)
+        return lambda axis=None, **k: (only_kw("sum", k), sums.reduce_sum(interp, v, axis))[1]
     if name == "mean":
-        return lambda axis=None, **k: sums.reduce_mean(interp, v, axis)
+        return lambda axis=None, **k: (only_kw("mean", k), sums.reduce_mean(interp, v, axis))[1]
     if name in ("min", "max"):
-        return lambda axis=None, **k: sums.reduce_minmax(interp, v, axis, name)
+        return lambda axis=None, **k: (only_kw(name, k), sums.reduce_minmax(interp, v, axis, name))[1]
     if name in ("any", "all"):
-        return lambda axis=None, **k: sums.reduce_anyall(interp, v, axis, name)
+        return lambda axis=None, **k: (only_kw(name, k), sums.reduce_anyall(interp, v, axis, name))[1]
     if name == "ndim":
         return len(v.axes)
     if name == "isin":
@@ -672,13 +689,14 @@ def v_getattr(interp, v, name):
     if name == "std":
         from . import sums as _s
 
-        return lambda axis=None, **k: _s.reduce_opaque(interp, v, axis, "std", nonneg=True)
+        # (the VALUE of a standard deviation is not modelled -- a fresh non-negative symbol -- so ddof does not matter)
+        return lambda axis=None, **k: (only_kw("std", k, ddof=ANY), _s.reduce_opaque(interp, v, axis, "std", nonneg=True))[1]
     if name == "split" and z3.is_string(v.t) and not v.axes:
         return lambda sep=None, maxsplit=-1: str_split(v, sep, maxsplit)
     if name == "cumsum":
         from . import sums as _s
 
-        return lambda **k: _s.cumsum_sorted(interp, v)
+        return lambda **k: (only_kw("cumsum", k), _s.cumsum_sorted(interp, v))[1]
     if name == "between":
 
         def between(left, right, inclusive="both"):
@@ -689,7 +707,13 @@ def v_getattr(interp, v, name):
 
         return between
     if name == "reset_index":
-        return lambda drop=False, **k: V(v.t, v.axes, ("range", getattr(v.axes[0], "name", "?")), v.nan, v.inf)
+        def reset_index(drop=False, **k):
+            only_kw("Series.reset_index", k, inplace=(False,))
+            if drop is not True:
+                raise Undecided("Series.reset_index(drop=False) returns a DataFrame")
+            return V(v.t, v.axes, ("range", getattr(v.axes[0], "name", "?")), v.nan, v.inf)
+
+        return reset_index
     if name == "isna" or name == "isnull":
         return lambda: V(v.nan if v.nan is not None else z3.BoolVal(False), v.axes, v.series)
     if name == "notnull" or name == "notna":
